@@ -12,6 +12,7 @@ import TrimeshVerif.Props.C10
 import TrimeshVerif.Props.C11
 import TrimeshVerif.Props.C12
 import TrimeshVerif.Props.C13
+import TrimeshVerif.Props.C16
 import TrimeshVerif.Props.C17
 import TrimeshVerif.Props.C18
 import TrimeshVerif.Props.C19
